@@ -18,7 +18,12 @@ import (
 	"verif/engine/sym"
 )
 
-const verifDir = "/verif"
+var verifDir = func() string {
+	if d := os.Getenv("VERIF_DIR"); d != "" {
+		return d
+	}
+	return "/verif"
+}()
 
 type replayEntry struct {
 	ID      string `json:"id"`
